@@ -9,6 +9,7 @@ import (
 	"io/ioutil"
 	"os"
 	"runtime/debug"
+	"syscall"
 	"time"
 
 	"github.com/Comcast/rulio/core"
@@ -54,7 +55,17 @@ func main() {
 	core.DefaultVerbosity = core.NOTHING
 	core.DefaultLogger = core.NewSimpleLogger(ioutil.Discard) // rulio logs to stdout by default; stdout carries the results
 	in := bufio.NewReaderSize(os.Stdin, 1<<20)
-	out := bufio.NewWriter(os.Stdout)
+	// results go to a private duplicate of stdout; fd 1 itself is pointed at /dev/null so that nothing the code under test
+	// (or a library) prints can end up between the result lines
+	results := os.Stdout
+	if fd, err := syscall.Dup(1); err == nil {
+		if devnull, err := os.OpenFile(os.DevNull, os.O_WRONLY, 0); err == nil {
+			results = os.NewFile(uintptr(fd), "results")
+			syscall.Dup2(int(devnull.Fd()), 1)
+			os.Stdout = devnull
+		}
+	}
+	out := bufio.NewWriter(results)
 	for {
 		line, err := in.ReadBytes('\n')
 		if len(line) > 1 {
